@@ -1,5 +1,6 @@
 import BufProofs.Lemmas.DepsLemmas
 import BufProofs.Lemmas.LockLemmas
+import BufProofs.Lemmas.BuildImageLemmas
 /-
   C10 — Workspace dependency resolution is exact and ambiguity is an error.
   Property theorems over BufModel.Graph.  Proved here: the selection clauses (target over
@@ -10,12 +11,24 @@ import BufProofs.Lemmas.LockLemmas
   (it succeeds whenever everything reachable resolves and r is on no cycle), `cycle_iff` (the
   cycle error ⇔ r ∈ reach⁺ r; a module that merely reaches a cycle does not report it),
   `deps_error_sound` (no spurious error), `fuel_suffices` — the same for ModuleSetToDAG
-  (`dag_error_iff`, `dag_reports_reachable_cycle`, `dag_fuel_suffices`), the shared DFS facts used
-  by the ls-files closure, and the recorded pre-fix commit-tie counterexample.
+  (`dag_error_iff`, `dag_reports_reachable_cycle`, `dag_fuel_suffices`), and the recorded pre-fix
+  commit-tie counterexample.
   The invariant behind the exactness theorems is `DPost` / `deps_post` in Lemmas/DepsLemmas.lean.
+
+  Second pass (answers handoff/AUDIT.md §C10):
+  * `lsfiles_eq_build` now relates `Graph.lsFiles` (what Driver/C10 runs) and
+    `Targeting.buildImage` (what Driver/C01 runs) — paths and import flags — under the hypothesis
+    that the compiler's import lists agree as sets with the scanned ones; `lsfiles_closure_exact`
+    is about `lsFiles` itself (sorted, duplicate-free, exactly the closure of the target files,
+    flags); `lsfiles_fuel_suffices`; the generic DFS fact is kept as `dfs_closure_exact`;
+  * `nontarget_files_are_imports` (files of non-target modules enter images only as imports);
+  * `local_over_remote` with the weak hypothesis; the selection clauses restated for
+    `uniqueAdded` (what the driver runs): `unique_added_exact`, `unique_added_sorted`,
+    `unique_added_target_over_nontarget`, `unique_added_local_over_remote`;
+  * duplicate paths nobody imports: `lsfiles_dup_path_error`, `deps_dup_among_error`.
 -/
 namespace BufProofs.C10
-open BufModel.Path BufModel.Graph
+open BufModel.Path BufModel.Graph BufModel.Targeting
 
 /-! ### selection among the modules added for one OpaqueID -/
 
@@ -124,28 +137,36 @@ theorem target_over_nontarget (as : List Added) (a : Added)
     exact (List.mem_filter.mp hmem).2
 
 /-- a module present locally takes precedence over a same-named pinned (remote) one — whenever
-    targeting does not already decide: no added module is targeted, or a local one is among the
-    targeted ones. -/
+    targeting does not already decide against it: no added module of the OpaqueID is targeted, or
+    a local one is among the targeted ones (this includes the commonest case: ONE targeted local
+    module shadowing an untargeted pin).  What is excluded, as coded ("target > local"): the only
+    targeted added modules are remote while a local one is untargeted — see
+    `target_remote_beats_local_counterexample`. -/
 theorem local_over_remote (as : List Added) (a : Added) (h : selectAdded as = some a)
     (hl : ((∀ x ∈ as, x.isTarget = false) ∧ ∃ x ∈ as, x.isLocal = true) ∨
-          (∃ x ∈ as, x.isTarget = true ∧ x.isLocal = true) ∧ 2 ≤ (as.filter (·.isTarget)).length) :
+          (∃ x ∈ as, x.isTarget = true ∧ x.isLocal = true)) :
     a.isLocal = true := by
   unfold selectAdded at h
   split at h
   next hnil =>
-    rcases hl with ⟨_, hloc⟩ | ⟨⟨x, hx, hxt, _⟩, _⟩
+    rcases hl with ⟨_, hloc⟩ | ⟨x, hx, hxt, _⟩
     · exact selectIgnoreTargeting_local as a h hloc
     · have : x ∈ as.filter (·.isTarget) := List.mem_filter.mpr ⟨hx, hxt⟩
       rw [hnil] at this; simp at this
   next t heq =>
-    rcases hl with ⟨hnt, _⟩ | ⟨_, hlen⟩
-    · have : t ∈ as.filter (·.isTarget) := by rw [heq]; exact List.mem_cons_self
-      have h1 := (List.mem_filter.mp this)
+    injection h with h; subst h
+    have ht : t ∈ as.filter (·.isTarget) := by rw [heq]; exact List.mem_cons_self
+    rcases hl with ⟨hnt, _⟩ | ⟨x, hx, hxt, hxl⟩
+    · have h1 := (List.mem_filter.mp ht)
       have h2 := hnt t h1.1
       rw [h2] at h1; simp at h1
-    · rw [heq] at hlen; simp at hlen
+    · -- the single targeted module is `x`
+      have hxm : x ∈ as.filter (·.isTarget) := List.mem_filter.mpr ⟨hx, hxt⟩
+      rw [heq] at hxm
+      simp only [List.mem_singleton] at hxm
+      rw [← hxm]; exact hxl
   next hne _ =>
-    rcases hl with ⟨hnt, _⟩ | ⟨⟨x, hx, hxt, hxl⟩, _⟩
+    rcases hl with ⟨hnt, _⟩ | ⟨x, hx, hxt, hxl⟩
     · exfalso
       apply hne
       apply List.filter_eq_nil_iff.mpr
@@ -153,6 +174,13 @@ theorem local_over_remote (as : List Added) (a : Added) (h : selectAdded as = so
       rw [hnt y hy]; simp
     · apply selectIgnoreTargeting_local _ a h
       exact ⟨x, List.mem_filter.mpr ⟨hx, hxt⟩, hxl⟩
+
+/-- "target > local", as coded: when the only targeted added module of an OpaqueID is remote, it is
+    selected although a local module of that OpaqueID was added (untargeted). -/
+theorem target_remote_beats_local_counterexample :
+    selectAdded [{ oid := 0, isLocal := true, isTarget := false, commit := 0, ctime := 0, files := [] },
+                 { oid := 0, isLocal := false, isTarget := true, commit := 1, ctime := 1, files := [] }] =
+      some { oid := 0, isLocal := false, isTarget := true, commit := 1, ctime := 1, files := [] } := by decide
 
 /-! ### ambiguity is an error -/
 
@@ -375,11 +403,12 @@ theorem dag_reports_reachable_cycle (ws : WS) (hg : ∀ t ∈ targetMods ws, Goo
     obtain ⟨ds, hds⟩ := toDAG_ok hd t ht x hx
     exact absurd hc (moduleDeps_ok hds).1
 
-/-! ### the ls-files closure (shared DFS facts) -/
+/-! ### the ls-files closure -/
 
-/-- what `ls-files --include-imports` lists is closed under imports and contains nothing that is
-    not reachable from a target: the DFS behind it visits exactly that. -/
-theorem lsfiles_closure_exact {α : Type} [DecidableEq α] (succ : α → Option (List α)) (fuel : Nat)
+/-- GENERIC fact about the shared DFS (`dfsRoots_post` restated; any successor function): the
+    visited set contains the roots, is closed, holds only nodes reachable from a root, and equals
+    the output as a set.  `lsfiles_closure_exact` below is the statement about `lsFiles`. -/
+theorem dfs_closure_exact {α : Type} [DecidableEq α] (succ : α → Option (List α)) (fuel : Nat)
     (roots vis out : List α) (h : dfsRoots succ fuel roots = .ok (vis, out)) :
     (∀ r ∈ roots, r ∈ vis) ∧
     (∀ x ∈ vis, ∃ cs, succ x = some cs ∧ ∀ c ∈ cs, c ∈ vis) ∧
@@ -391,37 +420,125 @@ theorem lsfiles_closure_exact {α : Type} [DecidableEq α] (succ : α → Option
   have hm : ∀ x, x ∈ vis ↔ x ∈ out := fun x => by rw [m]; simp
   exact ⟨rts, fun x hx => cl x ((hm x).mp hx), fun x hx => rch x ((hm x).mp hx), hm⟩
 
-/-- ls-files and build run the same closure: both are `dfsRoots` over the same roots; whenever
-    their successor functions agree on what is reachable the listed sets coincide (as sets).
-    Stated for two runs of the shared DFS: same roots, successor functions that agree → same set. -/
-theorem lsfiles_eq_build {α : Type} [DecidableEq α] (s1 s2 : α → Option (List α)) (f1 f2 : Nat)
-    (roots v1 o1 v2 o2 : List α)
-    (hagree : ∀ x, s1 x = s2 x)
-    (h1 : dfsRoots s1 f1 roots = .ok (v1, o1)) (h2 : dfsRoots s2 f2 roots = .ok (v2, o2)) :
-    ∀ x, x ∈ v1 ↔ x ∈ o2 := by
-  have hs : s1 = s2 := funext hagree
-  subst hs
-  obtain ⟨r1, c1, rc1, _⟩ := lsfiles_closure_exact s1 f1 roots v1 o1 h1
-  obtain ⟨r2, c2, rc2, m2⟩ := lsfiles_closure_exact s1 f2 roots v2 o2 h2
-  -- a set that contains the roots and is closed contains everything reachable
-  have closed_reach : ∀ (v : List α), (∀ x ∈ v, ∃ cs, s1 x = some cs ∧ ∀ c ∈ cs, c ∈ v) →
-      ∀ a b, Reach s1 a b → a ∈ v → b ∈ v := by
-    intro v hc a b hr
-    induction hr with
-    | refl => exact fun h => h
-    | step _ hs hcm ih =>
-      intro ha
-      obtain ⟨cs', hs', hcl⟩ := hc _ (ih ha)
-      rw [hs] at hs'; injection hs' with hs'; subst hs'
-      exact hcl _ hcm
-  intro x
-  constructor
-  · intro hx
-    obtain ⟨r, hr, hreach⟩ := rc1 x hx
-    exact (m2 x).mp (closed_reach v2 c2 r x hreach (r2 r hr))
-  · intro hx
-    obtain ⟨r, hr, hreach⟩ := rc2 x ((m2 x).mpr hx)
-    exact closed_reach v1 c1 r x hreach (r1 r hr)
+/-- What `buf ls-files --include-imports` (`Graph.lsFiles`, as run by Driver/C10) lists, for any
+    target decision `tf`: the paths are sorted and pairwise distinct; a path is listed iff it is
+    reachable — through the scanned imports of workspace files and the stored imports of built-in
+    well-known types (`lsLookup`) — from a target file; every listed path exists and all its
+    imports are listed; and an entry is flagged non-import iff it is a target file. -/
+theorem lsfiles_closure_exact (ws : WS) (tf : Nat → PFile → Bool) (l : List (Str × Bool))
+    (h : lsFiles ws tf = .ok l) :
+    (l.map (·.1)).Pairwise (fun a b => strLe a b = true) ∧ (l.map (·.1)).Nodup ∧
+    (∀ p, p ∈ l.map (·.1) ↔
+      ∃ m f, f ∈ modFiles ws m ∧ tf m f = true ∧ Reach (lsLookup (allFiles ws) ws.wkt) f.path p) ∧
+    (∀ p ∈ l.map (·.1), ∃ cs, lsLookup (allFiles ws) ws.wkt p = some cs ∧ ∀ d ∈ cs, d ∈ l.map (·.1)) ∧
+    (∀ x ∈ l, x.2 = false ↔ ∃ m f, f ∈ modFiles ws m ∧ tf m f = true ∧ f.path = x.1) := by
+  obtain ⟨vis, out, _, _, _, hdfs, hle⟩ := lsFiles_ok h
+  obtain ⟨_, _, hcl, hre⟩ := dfsRoots_exact hdfs
+  have hnd := dfsRoots_vis_nodup hdfs
+  have hpaths : l.map (·.1) = sortPaths vis := by
+    rw [hle, List.map_map]
+    have : ((fun x : Str × Bool => x.1) ∘ fun p =>
+        (p, !((allFiles ws).any (fun x => x.2.path == p && tf x.1 x.2)))) = id := rfl
+    rw [this, List.map_id]
+  rw [hpaths]
+  refine ⟨sortPaths_sorted vis, sortPaths_nodup hnd, ?_, ?_, ?_⟩
+  · intro p
+    rw [mem_sortPaths, hre p]
+    constructor
+    · rintro ⟨r, hr, hreach⟩
+      obtain ⟨x, hx, ht, rfl⟩ := mem_lsRoots.mp hr
+      exact ⟨x.1, x.2, mem_allFiles.mp hx, ht, hreach⟩
+    · rintro ⟨m, f, hf, ht, hreach⟩
+      exact ⟨f.path, mem_lsRoots.mpr ⟨(m, f), mem_allFiles.mpr hf, ht, rfl⟩, hreach⟩
+  · intro p hp
+    obtain ⟨cs, hs, hc⟩ := hcl p (mem_sortPaths.mp hp)
+    exact ⟨cs, hs, fun d hd => mem_sortPaths.mpr (hc d hd)⟩
+  · intro x hx
+    rw [hle] at hx
+    obtain ⟨p, _, rfl⟩ := List.mem_map.mp hx
+    simp only [Bool.not_eq_false', List.any_eq_true, Bool.and_eq_true, beq_iff_eq]
+    constructor
+    · rintro ⟨y, hy, hyp, ht⟩; exact ⟨y.1, y.2, mem_allFiles.mp hy, ht, hyp⟩
+    · rintro ⟨m, f, hf, ht, hp⟩; exact ⟨(m, f), mem_allFiles.mpr hf, hp, ht⟩
+
+/-- the successor function of that closure, spelled out for a workspace file: its scanned imports,
+    sorted and unique (`FileInfo.Imports()`); `lsLookup` falls back to the built-in WKT table only
+    for paths no workspace file has. -/
+theorem lsfiles_lookup_file (ws : WS) (tf : Nat → PFile → Bool) (l : List (Str × Bool))
+    (h : lsFiles ws tf = .ok l) (m : Nat) (f : PFile) (hf : f ∈ modFiles ws m) :
+    lsLookup (allFiles ws) ws.wkt f.path = some (infoImports f) := by
+  obtain ⟨_, _, _, hnd, _⟩ := lsFiles_ok h
+  exact lsLookup_file hnd hf
+
+/-- the fuel `lsFiles` gives its closure is never exhausted. -/
+theorem lsfiles_fuel_suffices (ws : WS) (tf : Nat → PFile → Bool) : lsFiles ws tf ≠ .error .fuel :=
+  lsFiles_ne_fuel ws tf
+
+/-- **ls-files lists exactly the files build would put in the image.**  `Graph.lsFiles` with the
+    target decision `isTargetIn t` (what Driver/C10 runs) versus `Targeting.buildImage t c perm`
+    (what Driver/C01 runs): when both succeed and the compiler's import lists agree AS SETS with
+    the scanned imports of the workspace files / the stored imports of the unshadowed built-in
+    WKTs (`ImportsAgree`; fastscan reports sorted unique imports, the compiler source order), the
+    ls-files paths are exactly the sorted image paths, and entry by entry the import flags agree.
+    The two pipelines differ in everything but the shared DFS: root lists (`walkAll` + filter vs
+    `walkTargets`/`targetList`), successor functions (`lsLookup` vs `csucc`), fuel, and order.
+    Hypothesis `WfCfgs`: no proto-file reference together with `--path` (rejected by the builder).
+    NOT covered: that one side succeeds iff the other does (ls-files reports an unreachable
+    duplicate path or an empty non-target module that build never looks at, and build reports
+    import cycles that ls-files does not) — compared by the harness (`ls=` field vs image). -/
+theorem lsfiles_eq_build (t : TWS) (c : Compiler) (perm : List Str → List Str)
+    (hwf : WfCfgs t) (ha : ImportsAgree t.ws c) (l : List (Str × Bool)) (img : List ImgFile)
+    (hl : lsFiles t.ws (isTargetIn t) = .ok l) (hb : buildImage t c perm = .ok img) :
+    l.map (·.1) = sortPaths (img.map (·.path)) ∧
+    (∀ f ∈ img, (f.path, f.isImport) ∈ l) ∧
+    (∀ x ∈ l, ∃ f ∈ img, f.path = x.1 ∧ f.isImport = x.2) :=
+  lsFiles_eq_buildImage t c perm hwf ha l img hl hb
+
+/-- Files of non-target modules enter images only as imports (via C01): in a built image every
+    file is marked non-import iff it is a target file, every file is reachable from a target
+    file, and a file whose path a NON-targeted module provides is marked import. -/
+theorem nontarget_files_are_imports (t : TWS) (c : Compiler) (perm : List Str → List Str)
+    (img : List ImgFile) (hwf : WfCfgs t) (h : buildImage t c perm = .ok img) :
+    ∀ f ∈ img,
+      (f.isImport = false ↔ ∃ m g, g ∈ modFiles t.ws m ∧ isTargetIn t m g = true ∧ g.path = f.path) ∧
+      (∃ m g, g ∈ modFiles t.ws m ∧ isTargetIn t m g = true ∧ Reach (csucc t.ws c) g.path f.path) ∧
+      (∀ m, modIsTarget t m = false → (∃ g ∈ modFiles t.ws m, g.path = f.path) → f.isImport = true) :=
+  nontarget_files_core t c perm img hwf h
+
+/-- … and the same for ls-files: an entry whose path only non-targeted modules provide is flagged
+    import (a non-targeted module has no target files). -/
+theorem lsfiles_nontarget_is_import (t : TWS) (l : List (Str × Bool))
+    (h : lsFiles t.ws (isTargetIn t) = .ok l) (x : Str × Bool) (hx : x ∈ l)
+    (hnt : ∀ m f, f ∈ modFiles t.ws m → f.path = x.1 → modIsTarget t m = false) : x.2 = true := by
+  cases hb : x.2 with
+  | true => rfl
+  | false =>
+    obtain ⟨m, f, hf, ht, hp⟩ := ((lsfiles_closure_exact t.ws (isTargetIn t) l h).2.2.2.2 x hx).mp hb
+    rw [isTargetIn_false_of_nontarget t m f (hnt m f hf hp)] at ht
+    cases ht
+
+/-! ### duplicate paths nobody imports -/
+
+/-- A path two modules of the set provide makes `ls-files` fail — whether or not anybody imports
+    it (`GetFileInfos` walks every module; the union bucket rejects the second occurrence). -/
+theorem lsfiles_dup_path_error (ws : WS) (tf : Nat → PFile → Bool) (m m' : Nat) (f f' : PFile)
+    (hne : m ≠ m') (hf : f ∈ modFiles ws m) (hf' : f' ∈ modFiles ws m') (hp : f.path = f'.path) :
+    ∃ e, lsFiles ws tf = .error e := by
+  cases h : lsFiles ws tf with
+  | error e => exact ⟨e, rfl⟩
+  | ok l =>
+    obtain ⟨_, _, _, hnd, _⟩ := lsFiles_ok h
+    have := inj_of_nodup_map (fun x : Nat × PFile => x.2.path) hnd
+      ((mem_allFiles (x := (m, f))).mpr hf) ((mem_allFiles (x := (m', f'))).mpr hf') hp
+    exact absurd (congrArg Prod.fst this) hne
+
+/-- Two distinct modules reachable from `r` (r itself included) that share a file path make
+    `ModuleDeps()` of `r` fail although no import names that path: the final
+    `protoFileTracker.validate()` (`dupAmong`) ranges over ALL visited = all reachable modules. -/
+theorem deps_dup_among_error (ws : WS) (r x y : Nat) (hx : Reach (msuccO ws) r x)
+    (hy : Reach (msuccO ws) r y) (hne : x ≠ y) (f : PFile) (hf : f ∈ modFiles ws x)
+    (hp : hasPath ws y f.path = true) : ∃ e, moduleDeps ws r = .error e :=
+  moduleDeps_dupAmong_error hx hy hne hf hp
 
 /-! ### recorded finding: the pre-fix commit tie -/
 
@@ -546,6 +663,82 @@ theorem uniqueAdded_covers (as : List Added) (x : Added) (hx : x ∈ as) :
   refine List.mem_filterMap.mpr ⟨x.oid, ?_, ha⟩
   exact (mem_sortBy natLe).mpr (mem_dedup.mpr (List.mem_map.mpr ⟨x, hx, rfl⟩))
 
+/-! ### the selection clauses for `uniqueAdded` = getUniqueSortedAddedModulesByOpaqueID (what
+    `Driver.C10.buildFrom` runs), not only for the per-OpaqueID helper `selectAdded` -/
+
+/-- `a` is in the module set iff it is THE module `selectAdded` picks among the added modules of
+    its own OpaqueID (and that OpaqueID was added). -/
+theorem unique_added_exact (as : List Added) (a : Added) :
+    a ∈ uniqueAdded as ↔
+      (∃ x ∈ as, x.oid = a.oid) ∧ selectAdded (as.filter (fun x => x.oid == a.oid)) = some a := by
+  unfold uniqueAdded
+  rw [List.mem_filterMap]
+  constructor
+  · rintro ⟨o, ho, hsel⟩
+    have hmem := List.mem_filter.mp (selectAdded_mem _ a hsel)
+    have hoid : a.oid = o := by simpa using hmem.2
+    subst hoid
+    obtain ⟨x, hx, hxo⟩ := List.mem_map.mp (mem_dedup.mp ((mem_sortBy natLe).mp ho))
+    exact ⟨⟨x, hx, hxo⟩, hsel⟩
+  · rintro ⟨⟨x, hx, hxo⟩, hsel⟩
+    exact ⟨a.oid, (mem_sortBy natLe).mpr (mem_dedup.mpr (List.mem_map.mpr ⟨x, hx, hxo⟩)), hsel⟩
+
+/-- one module per OpaqueID, sorted by OpaqueID (`ModuleSet.Modules()` order; the model's module
+    index is the rank of the OpaqueID). -/
+theorem unique_added_sorted (as : List Added) : ((uniqueAdded as).map (·.oid)).Pairwise (· < ·) := by
+  have hmap : ∀ (l : List Nat), (∀ o ∈ l, ∃ x ∈ as, x.oid = o) →
+      (l.filterMap (fun o => selectAdded (as.filter (fun a => a.oid == o)))).map (·.oid) = l := by
+    intro l
+    induction l with
+    | nil => intro _; rfl
+    | cons o os ih =>
+      intro hall
+      obtain ⟨x, hx, hxo⟩ := hall o List.mem_cons_self
+      have hne : as.filter (fun a => a.oid == o) ≠ [] := by
+        intro h
+        have : x ∈ as.filter (fun a => a.oid == o) := List.mem_filter.mpr ⟨hx, by simp [hxo]⟩
+        rw [h] at this; simp at this
+      obtain ⟨a, ha⟩ := selectAdded_isSome _ hne
+      have hao : a.oid = o := by simpa using (List.mem_filter.mp (selectAdded_mem _ a ha)).2
+      rw [List.filterMap_cons, ha]
+      simp only [List.map_cons, hao]
+      rw [ih (fun o' ho' => hall o' (List.mem_cons_of_mem _ ho'))]
+  unfold uniqueAdded
+  rw [hmap _ (fun o ho => by
+    obtain ⟨x, hx, hxo⟩ := List.mem_map.mp (mem_dedup.mp ((mem_sortBy natLe).mp ho))
+    exact ⟨x, hx, hxo⟩)]
+  have hsorted := sortBy_pairwise natLe natLe_total natLe_trans (dedup (as.map (·.oid)))
+  have hnd : (sortBy natLe (dedup (as.map (·.oid)))).Nodup :=
+    (sortBy_perm natLe _).nodup_iff.mpr (dedup_nodup _)
+  exact (hsorted.and (List.nodup_iff_pairwise_ne.mp hnd)).imp
+    (fun hab => Nat.lt_of_le_of_ne (by simpa [natLe] using hab.1) hab.2)
+
+/-- target over non-target, for the module set: if ANY added module of the OpaqueID of a member of
+    the module set was targeted, that member is targeted. -/
+theorem unique_added_target_over_nontarget (as : List Added) (a : Added) (ha : a ∈ uniqueAdded as)
+    (ht : ∃ x ∈ as, x.oid = a.oid ∧ x.isTarget = true) : a.isTarget = true := by
+  obtain ⟨_, hsel⟩ := (unique_added_exact as a).mp ha
+  obtain ⟨x, hx, hxo, hxt⟩ := ht
+  exact target_over_nontarget _ a hsel ⟨x, List.mem_filter.mpr ⟨hx, by simp [hxo]⟩, hxt⟩
+
+/-- local over remote, for the module set: a member of the module set is local whenever some
+    added module of its OpaqueID is local and either none of that OpaqueID is targeted or a local
+    one is targeted. -/
+theorem unique_added_local_over_remote (as : List Added) (a : Added) (ha : a ∈ uniqueAdded as)
+    (hl : ((∀ x ∈ as, x.oid = a.oid → x.isTarget = false) ∧ ∃ x ∈ as, x.oid = a.oid ∧ x.isLocal = true) ∨
+          (∃ x ∈ as, x.oid = a.oid ∧ x.isTarget = true ∧ x.isLocal = true)) :
+    a.isLocal = true := by
+  obtain ⟨_, hsel⟩ := (unique_added_exact as a).mp ha
+  apply local_over_remote _ a hsel
+  rcases hl with ⟨hnt, x, hx, hxo, hxl⟩ | ⟨x, hx, hxo, hxt, hxl⟩
+  · left
+    refine ⟨?_, x, List.mem_filter.mpr ⟨hx, by simp [hxo]⟩, hxl⟩
+    intro y hy
+    have := List.mem_filter.mp hy
+    exact hnt y this.1 (by simpa using this.2)
+  · right
+    exact ⟨x, List.mem_filter.mpr ⟨hx, by simp [hxo]⟩, hxt, hxl⟩
+
 /-- v1 (buf.work.yaml): the pins of the buf.lock of EVERY module directory are added, as
     non-target remote modules — whatever `m.loc.isTarget` is, i.e. whether or not the input
     targets that directory. -/
@@ -619,5 +812,101 @@ example : (uniqueAdded (v1Adds [exLockT, exLockS, exLockU])).map (fun a => (a.oi
 theorem only_target_locks_counterexample :
     ¬ ∃ a ∈ uniqueAdded (v1Adds ([exLockT, exLockS, exLockU].map
         (fun m => if m.loc.isTarget then m else { m with pins := [] }))), a.oid = 3 := by decide
+
+/-! ### non-vacuity of the second-pass theorems -/
+
+/-- the acyclic diamond `exWs3` (A → B → D, A → C → D, A imports a built-in WKT), A targeted, with
+    a compiler whose dependency lists are the scanned imports in REVERSE order (so they agree with
+    them as sets only). -/
+def exT3 : TWS := { ws := exWs3, cfgs := [{}, {}, {}, {}] }
+
+def exC3 : Compiler :=
+  { imports := fun p => match lsLookup (allFiles exWs3) exWs3.wkt p with
+      | some cs => cs.reverse
+      | none => []
+    unused := fun _ => []
+    syntaxUnspecified := fun _ => false }
+
+theorem exT3_wf : WfCfgs exT3 := wfCfgs_of_all (by decide)
+theorem exT3_agree : ImportsAgree exT3.ws exC3 := importsAgree_of_check (by decide)
+
+theorem exT3_ls : lsFiles exT3.ws (isTargetIn exT3) =
+    .ok [("a/a.proto".toList, false), ("b/b.proto".toList, true), ("c/c.proto".toList, true),
+         ("d/d.proto".toList, true), ("google/protobuf/any.proto".toList, true)] := by decide
+
+theorem exT3_img : (buildImage exT3 exC3 id).map (fun l => l.map (fun f => (f.path, f.isImport))) =
+    .ok [("google/protobuf/any.proto".toList, true), ("d/d.proto".toList, true), ("c/c.proto".toList, true),
+         ("b/b.proto".toList, true), ("a/a.proto".toList, false)] := by decide
+
+-- all hypotheses of `lsfiles_eq_build` hold for `exT3`/`exC3` (the image order differs from the
+-- ls-files order, the compiler's import lists differ from the scanned ones as lists)
+example : ∀ l img, lsFiles exT3.ws (isTargetIn exT3) = .ok l → buildImage exT3 exC3 id = .ok img →
+    l.map (·.1) = sortPaths (img.map (·.path)) :=
+  fun l img hl hb => (lsfiles_eq_build exT3 exC3 id exT3_wf exT3_agree l img hl hb).1
+
+example : ∃ l img, lsFiles exT3.ws (isTargetIn exT3) = .ok l ∧ buildImage exT3 exC3 id = .ok img := by
+  cases h : buildImage exT3 exC3 id with
+  | error e => have := exT3_img; rw [h] at this; cases this
+  | ok img => exact ⟨_, img, exT3_ls, rfl⟩
+
+-- `nontarget_files_are_imports`: B (module 1) is not targeted and provides b/b.proto
+example : ∀ img, buildImage exT3 exC3 id = .ok img → ∀ f ∈ img, f.path = "b/b.proto".toList → f.isImport = true := by
+  intro img h f hf hp
+  exact (nontarget_files_are_imports exT3 exC3 id img exT3_wf h f hf).2.2 1 (by decide)
+    ⟨{ path := "b/b.proto".toList, imports := ["d/d.proto".toList] }, by decide, hp.symm⟩
+
+/-- two modules provide x/dup.proto and nobody imports it; A imports B. -/
+def exWsDup : WS :=
+  { mods := [ { files := [{ path := "a/a.proto".toList, imports := ["b/b.proto".toList] }, { path := "x/dup.proto".toList, imports := [] }],
+                isTarget := true, isLocal := true },
+              { files := [{ path := "b/b.proto".toList, imports := [] }, { path := "x/dup.proto".toList, imports := [] }],
+                isTarget := false, isLocal := true } ],
+    wkt := [] }
+
+-- hypotheses of `lsfiles_dup_path_error` / `deps_dup_among_error` hold; the model reports `dup`
+example : ∃ e, lsFiles exWsDup (fun _ _ => true) = .error e :=
+  lsfiles_dup_path_error exWsDup _ 0 1 { path := "x/dup.proto".toList, imports := [] }
+    { path := "x/dup.proto".toList, imports := [] } (by decide) (by decide) (by decide) rfl
+example : lsFiles exWsDup (fun _ _ => true) = .error .dupPath := by decide
+example : ∃ e, moduleDeps exWsDup 0 = .error e :=
+  deps_dup_among_error exWsDup 0 0 1 (Reach.refl 0)
+    (Reach.step (Reach.refl 0) (rfl : msuccO exWsDup 0 = some (msucc exWsDup 0)) (by decide))
+    (by decide) { path := "x/dup.proto".toList, imports := [] } (by decide) (by decide)
+example : moduleDeps exWsDup 0 = .error .dupPath := by decide
+
+/-- the commonest shadowing case: ONE targeted local module and an untargeted pin of the same
+    OpaqueID (the weak second disjunct of `local_over_remote`). -/
+def exShadow : List Added :=
+  [ { oid := 0, isLocal := false, isTarget := false, commit := 7, ctime := 5, files := [] },
+    { oid := 0, isLocal := true, isTarget := true, commit := 0, ctime := 0, files := [] },
+    { oid := 1, isLocal := false, isTarget := false, commit := 3, ctime := 1, files := [] } ]
+
+example : ∃ x ∈ exShadow.filter (fun a => a.oid == 0), x.isTarget = true ∧ x.isLocal = true := by decide
+example : (uniqueAdded exShadow).map (fun a => (a.oid, a.isLocal, a.isTarget)) = [(0, true, true), (1, false, false)] := by decide
+example : ∀ a ∈ uniqueAdded exShadow, a.oid = 0 → a.isLocal = true := by
+  intro a ha h0
+  exact unique_added_local_over_remote exShadow a ha
+    (Or.inr ⟨{ oid := 0, isLocal := true, isTarget := true, commit := 0, ctime := 0, files := [] },
+      by decide, by rw [h0], rfl, rfl⟩)
+
+-- `unique_added_target_over_nontarget` on `exShadow`: an added module of OpaqueID 0 is targeted
+example : ∀ a ∈ uniqueAdded exShadow, a.oid = 0 → a.isTarget = true := by
+  intro a ha h0
+  exact unique_added_target_over_nontarget exShadow a ha
+    ⟨{ oid := 0, isLocal := true, isTarget := true, commit := 0, ctime := 0, files := [] }, by decide, by rw [h0], rfl⟩
+example : ((uniqueAdded exShadow).map (·.oid)).Pairwise (· < ·) := unique_added_sorted exShadow
+
+-- `lsfiles_nontarget_is_import` on `exT3`: only the non-targeted module B provides b/b.proto
+example : (("b/b.proto".toList, true) : Str × Bool).2 = true :=
+  lsfiles_nontarget_is_import exT3 _ exT3_ls ("b/b.proto".toList, true) (by decide) (by
+    intro m f hf hp
+    have hall : ∀ m, m < 4 → ∀ f ∈ modFiles exT3.ws m, f.path = "b/b.proto".toList → modIsTarget exT3 m = false := by decide
+    exact hall m (modFiles_lt hf) f hf hp)
+
+-- `lsfiles_closure_exact` / `lsfiles_lookup_file` on `exT3`
+example : lsLookup (allFiles exT3.ws) exT3.ws.wkt "a/a.proto".toList =
+    some ["b/b.proto".toList, "c/c.proto".toList, "google/protobuf/any.proto".toList] :=
+  lsfiles_lookup_file exT3.ws _ _ exT3_ls 0
+    { path := "a/a.proto".toList, imports := ["b/b.proto".toList, "c/c.proto".toList, "google/protobuf/any.proto".toList] } (by decide)
 
 end BufProofs.C10
